@@ -45,13 +45,16 @@ Proof.
   destruct (hd_file h0 =? file); [|discriminate]. intros [= <-]. exact (Hs _ _ E).
 Qed.
 
-Lemma check_fd_flags_ok h fl : hdl_ok h -> hdl_ok (check_fd_flags h fl).
-Proof. intros Hh. unfold check_fd_flags. destruct (hd_flags h =? fl); [exact Hh|intros Hx; exact Hx]. Qed.
+Lemma check_fd_flags_ok wb h fl : hdl_ok h -> hdl_ok (check_fd_flags wb h fl).
+Proof.
+  intros Hh. unfold check_fd_flags. destruct (hd_flags h =? fl); [exact Hh|].
+  unfold hdl_ok. cbn [hd_append hd_flags]. intros Hx. apply andb_true_iff in Hx. tauto.
+Qed.
 
 (* after check_fd_flags the fd appends only if the request's flag word carries O_APPEND *)
-Lemma check_fd_flags_append h fl : hdl_ok h -> has fl O_APPEND = false -> hd_append (check_fd_flags h fl) = false.
+Lemma check_fd_flags_append wb h fl : hdl_ok h -> has fl O_APPEND = false -> hd_append (check_fd_flags wb h fl) = false.
 Proof.
-  intros Hh Hna. unfold check_fd_flags. destruct (hd_flags h =? fl) eqn:E; [|exact Hna].
+  intros Hh Hna. unfold check_fd_flags. destruct (hd_flags h =? fl) eqn:E; [|cbn [hd_append]; rewrite Hna; reflexivity].
   destruct (hd_append h) eqn:Ea; [|reflexivity]. unfold hdl_ok in Hh. rewrite Ea in Hh. specialize (Hh eq_refl).
   assert (hd_flags h = fl) by lia. congruence.
 Qed.
@@ -67,12 +70,12 @@ Proof.
     destruct (c_no_open C); cbn [snd]; [apply open_effect_ok; exact Hs|].
     apply set_slot_ok; [apply open_effect_ok; exact Hs|apply new_hdl_ok].
   - destruct (get_data C s slot file) as [h0|] eqn:Eg; cbn [snd]; [|exact Hs].
-    assert (Hs1 : slots_ok (if c_no_open C then s else set_slot s slot (Some (check_fd_flags h0 rfl)))).
+    assert (Hs1 : slots_ok (if c_no_open C then s else set_slot s slot (Some (check_fd_flags (c_writeback C) h0 rfl)))).
     { destruct (c_no_open C); [exact Hs|]. apply set_slot_ok; [exact Hs|].
       apply check_fd_flags_ok. exact (get_data_ok _ _ _ _ _ Hs Eg). }
     destruct (hd_acc _ =? 1); cbn [snd]; exact Hs1.
   - destruct (get_data C s slot file) as [h0|] eqn:Eg; cbn [snd]; [|exact Hs].
-    assert (Hs1 : slots_ok (if c_no_open C then s else set_slot s slot (Some (check_fd_flags h0 wfl)))).
+    assert (Hs1 : slots_ok (if c_no_open C then s else set_slot s slot (Some (check_fd_flags (c_writeback C) h0 wfl)))).
     { destruct (c_no_open C); [exact Hs|]. apply set_slot_ok; [exact Hs|].
       apply check_fd_flags_ok. exact (get_data_ok _ _ _ _ _ Hs Eg). }
     destruct (fx_append (c_fx C) && c_seal C && has wfl O_APPEND && negb (len =? 0)); cbn [snd]; [exact Hs1|].
@@ -151,7 +154,7 @@ Proof.
     destruct (hd_acc _ =? 0); [destruct (I64_MAX <? off); cbn [snd]; apply Hsz|].
     assert (Hna : has wfl O_APPEND = false).
     { destruct (has wfl O_APPEND); [|reflexivity]. destruct (fx_append (c_fx C)); cbn in Hk, Efx; discriminate. }
-    rewrite (check_fd_flags_append _ _ (get_data_ok _ _ _ _ _ Hs Eg) Hna).
+    rewrite (check_fd_flags_append _ _ _ (get_data_ok _ _ _ _ _ Hs Eg) Hna).
     assert (Hc : seal_size_check true (sizes s file) off len 0 = 0) by lia.
     destruct (seal_write_ok _ _ _ Hc) as [Hle _].
     pose proof (pwrite_within H _ _ _ Hle) as Hp.
